@@ -22,9 +22,10 @@ run by trace checking (harness/c01.go ↔ Driver/C01.lean `C01.check`).
 import Martian.Dataflow
 import Martian.Resolver
 import Proofs.Dataflow
+import Proofs.DataflowAlias
 
 namespace Props.C01
-open Martian.Dataflow Martian.Resolver Proofs.Dataflow
+open Martian.Dataflow Martian.Resolver Proofs.Dataflow Proofs.DataflowAlias
 
 /-! ## kernel laws -/
 
@@ -96,11 +97,37 @@ theorem chunk_outs_in_order (outs : List J) (i : Nat) (h : i < outs.length) :
     indicesOf (joinChunkOuts outs) = (List.range outs.length).map .i := by
   simp [joinChunkOuts, elemAt, indicesOf, List.getD_eq_getElem?_getD, h]
 
-/-! ## meta-theorems about the specification -/
+/--
+PARTIAL.  Static projection commutes with evaluation: projecting a binding
+expression by a field *before* evaluation (`*Exp.BindingPath`: array literals
+element-wise, typed-map literals value-wise, struct literals by member
+selection, references by path extension) denotes the projection of its value.
+Longer paths follow by iteration (`projPath` is the iteration of `proj1`).
 
-/-- the oracle induced by a history: the outputs recorded for an instance -/
-def oracleOfHistory (h : List (InstKey × J)) : Oracle :=
-  fun k => (h.find? (fun e => e.1 == k)).map (·.2)
+Excluded shape (not modelled): expressions that only exist after static
+resolution — references carrying fork indices (`RefExp.Forks`), `MergeExp`,
+`DisabledExp` and nested `SplitExp` — i.e. the fork-index substitution for
+references to mapped calls; for those the static phase is checked only
+end-to-end by the per-run comparison with `den`.
+-/
+theorem bindingPath_sound_partial (st : StructTable) (env : Env) (f : String) (e : Exp) (t : Ty)
+    (h : wt st env t e = true) :
+    eval st env (bindingPath1 f e) = proj1 t f (eval st env e) :=
+  bp_sound st env f e t h
+
+/-- Fork-index substitution on a split literal: the expression selected for fork
+`ix` denotes the `ix`-th element of the collection the literal denotes. -/
+theorem split_literal_sound (st : StructTable) (env : Env) (xs : List Exp)
+    (kvs : List (String × Exp)) (n : Nat) (k : String) :
+    eval st env (selectFork (.i n) (.arr xs)) = elemAt (eval st env (.arr xs)) (.i n) ∧
+    eval st env (selectFork (.k k) (.map kvs)) = elemAt (eval st env (.map kvs)) (.k k) := by
+  constructor
+  · simp only [selectFork, eval, elemAt]
+    exact (evalList_getD st env xs n).symm
+  · simp only [selectFork, eval, elemAt, J.field, lookup_evalFields]
+    cases kvs.lookup k <;> simp [eval]
+
+/-! ## meta-theorems about the specification -/
 
 /-- `den` does not depend on the order in which jobs finish: two histories that
 record the same stage outputs in different completion orders give the same
@@ -120,14 +147,6 @@ theorem den_disabled_null (st : StructTable) (nf : Nat) (insOf : String → List
     (hd : c.disabled = some (false, e)) (ht : Martian.Dataflow.isTrue (eval st env e) = true) :
     evalCall st nf insOf run path forks env c = (liftTy c.callee (callMode st env c), .dnull, []) := by
   simp [evalCall, hd, ht]
-
-/-- the unmapped call that instance `ix` of a mapped call stands for: every split
-binding replaced by (the literal of) its `ix`-th element -/
-def atIndex (st : StructTable) (env : Env) (c : Call) (ix : Idx) : Call :=
-  { c with
-    mapped := false
-    binds := c.binds.map fun b =>
-      if b.split then ⟨b.param, false, .lit (elemAt (eval st env b.exp) ix)⟩ else b }
 
 /-- Instance `ix` of a mapped call receives exactly the argument record the
 unmapped call would receive with the `ix`-th element of every split collection. -/
@@ -155,7 +174,8 @@ theorem den_map_pointwise (st : StructTable) (nf : Nat) (env : Env) (ins : List 
 in index order, instances concatenated in index order. -/
 theorem den_map_collects (st : StructTable) (nf : Nat) (insOf : String → List Param) (run : Runner)
     (path : List String) (forks : List (String × Idx)) (env : Env) (c : Call)
-    (hm : c.mapped = true) (hd : c.disabled = none) (hne : (callIndices st env c).isEmpty = false) :
+    (hm : c.mapped = true) (hd : c.disabled = none) (hs : splitsAgree st env c = true)
+    (hne : (callIndices st env c).isEmpty = false) :
     evalCall st nf insOf run path forks env c =
       (liftTy c.callee (callMode st env c),
        collect (callMode st env c) (callIndices st env c)
@@ -167,7 +187,7 @@ theorem den_map_collects (st : StructTable) (nf : Nat) (insOf : String → List 
              (mkArgs st nf (argVals st env (insOf c.callee) (atIndex st env c ix)) none)).2) := by
   have hnull : ∀ ix, Martian.Dataflow.isTrue (elemAt .null ix) = false := by
     intro ix; cases ix <;> rfl
-  simp only [evalCall, hd, hm, hne, Bool.not_true, Bool.false_eq_true, if_false, hnull,
+  simp only [evalCall, hd, hm, hne, hs, Bool.not_true, Bool.false_eq_true, if_false, hnull,
     List.map_map, Function.comp_def, ← den_map_pointwise, List.flatMap_map]
 
 /-- A mapped call over an empty (or null) collection: every output is `dnull`
@@ -178,12 +198,48 @@ theorem den_empty_map_null (st : StructTable) (nf : Nat) (insOf : String → Lis
     (evalCall st nf insOf run path forks env c).2.1 = .dnull ∧
     ∀ i ∈ (evalCall st nf insOf run path forks env c).2.2, i.optional = true := by
   simp only [evalCall, hd, hm, he, Bool.not_true, Bool.false_eq_true, if_false, if_true]
-  constructor
-  · trivial
-  · intro i hi
-    simp only [List.mem_map] at hi
-    obtain ⟨j, _, rfl⟩ := hi
+  split
+  · refine ⟨rfl, ?_⟩
+    intro i hi
+    simp only [List.mem_singleton] at hi
+    subst hi
     rfl
+  · constructor
+    · trivial
+    · intro i hi
+      simp only [List.mem_map] at hi
+      obtain ⟨j, _, rfl⟩ := hi
+      rfl
+
+/-- Renaming call ids inside a pipeline body changes nothing but the id.
+`swapCall a b` exchanges the ids `a` and `b` consistently (in the call
+statements and in every reference of every binding / `disabled` expression; a
+transposition, so no freshness condition is needed — renaming `a` to a fresh
+`b` is the special case where `b` does not occur).  If the callees' denotations
+are re-keyed accordingly (`RunnerRel`: on the renamed path / fork entry they
+answer what the original ones answer on the original path — i.e. the recorded
+stage outputs are looked up under the new name), then evaluating the renamed
+body yields the same environment up to the renaming of its keys — the same
+type and value for every call —, exactly the same stage instances with the same
+argument records, and every renamed return expression denotes the same value. -/
+theorem den_alias (st : StructTable) (nf : Nat) (insOf : String → List Param) (a b : String)
+    (run run' : Runner) (path : List String) (forks : List (String × Idx))
+    (hrel : RunnerRel a b path forks run run') (cs : List Call) (env : Env) (acc : List Inst) :
+    evalCalls st nf insOf run' path forks (cs.map (swapCall a b)) (swapEnv a b env) acc
+      = (swapEnv a b (evalCalls st nf insOf run path forks cs env acc).1,
+         (evalCalls st nf insOf run path forks cs env acc).2)
+    ∧ ∀ e : Exp,
+        eval st (swapEnv a b (evalCalls st nf insOf run path forks cs env acc).1) (swapExp a b e)
+          = eval st (evalCalls st nf insOf run path forks cs env acc).1 e :=
+  ⟨evalCalls_swap st nf insOf a b run run' path forks hrel cs env acc,
+   fun e => eval_swap st a b _ e⟩
+
+/-- `den_alias` is not vacuous: a callee denotation that really depends on the
+call id, and its re-keyed counterpart, are related. -/
+example (a b : String) : RunnerRel a b [] [] idRunner (idRunnerSwapped a b) := idRunner_rel a b
+
+example : swapCall "A" "B" (exAliasCall "A" "A") = exAliasCall "B" "B" := by
+  simp [swapCall, swapExp, swapId, exAliasCall]
 
 /--
 PARTIAL (the compositional half of `den_inline`).  A call of a sub-pipeline
@@ -224,39 +280,6 @@ theorem den_inline_partial (P : Program) (O : Oracle) (nf fuel : Nat) (env : Env
 
 /-! ## non-vacuity: a concrete nested mapped program (DESIGN Appendix A.1, the F14 shape) -/
 
-def tInt : Ty := ⟨"int", 0, 0⟩
-def tInts : Ty := ⟨"int", 0, 1⟩
-
-/-- GEN / ECHO stages, INNER maps ECHO statically over [10,20,30], TOP maps INNER
-over GEN's run-time output. -/
-def exProg : Program :=
-  { structs := []
-    callables :=
-      [ ("GEN", .stage [⟨"what", tInts⟩] [⟨"result", tInts⟩]),
-        ("ECHO", .stage [⟨"what", tInt⟩, ⟨"k", tInt⟩] [⟨"result", tInt⟩]),
-        ("INNER", .pipeline [⟨"v", tInt⟩] [⟨"r", tInts⟩]
-          [ { id := "ECHO", callee := "ECHO", mapped := true,
-              binds := [⟨"what", false, .self "v" []⟩,
-                        ⟨"k", true, .arr [.lit (.atom "10"), .lit (.atom "20"), .lit (.atom "30")]⟩],
-              disabled := none } ]
-          [("r", .ref "ECHO" ["result"])]),
-        ("TOP", .pipeline [⟨"xs", tInts⟩] [⟨"r", ⟨"int", 0, 2⟩⟩]
-          [ { id := "GEN", callee := "GEN", mapped := false,
-              binds := [⟨"what", false, .self "xs" []⟩], disabled := none },
-            { id := "INNER", callee := "INNER", mapped := true,
-              binds := [⟨"v", true, .ref "GEN" ["result"]⟩], disabled := none } ]
-          [("r", .ref "INNER" ["r"])]) ]
-    top := { id := "TOP", callee := "TOP", mapped := false,
-             binds := [⟨"xs", false, .arr [.lit (.atom "1"), .lit (.atom "2")]⟩], disabled := none } }
-
-/-- echo oracle: GEN returns its input (here [1,2]); ECHO returns `what` -/
-def exOracle : Oracle := fun k =>
-  match k.path, k.forks with
-  | ["TOP", "GEN"], [] => some (.obj [("result", .arr [.atom "1", .atom "2"])])
-  | ["TOP", "INNER", "ECHO"], [("INNER", .i 0), _] => some (.obj [("result", .atom "1")])
-  | ["TOP", "INNER", "ECHO"], [("INNER", .i 1), _] => some (.obj [("result", .atom "2")])
-  | _, _ => none
-
 /-- the denotation is `r = [[1,1,1],[2,2,2]]` (two rows, not six), with 1 + 2×3 stage instances -/
 example :
     (den exProg exOracle).1.matches
@@ -292,7 +315,7 @@ example :
                       binds := [⟨"what", false, .self "v" []⟩,
                                 ⟨"k", true, .arr [.lit (.atom "10"), .lit (.atom "20")]⟩],
                       disabled := none }
-    (callIndices [] env c).isEmpty = false ∧
+    (callIndices [] env c).isEmpty = false ∧ splitsAgree [] env c = true ∧
     (callIndices [] env { c with binds := [⟨"k", true, .arr []⟩] }).isEmpty = true := by decide
 
 example : exProg.callables.lookup "INNER" =
@@ -308,6 +331,11 @@ example :
     (narrow [("PAIR", [⟨"a", tInt⟩, ⟨"b", ⟨"string", 0, 0⟩⟩])] 3 ⟨"PAIR", 0, 1⟩
       (.arr [.obj [("a", .atom "1"), ("b", .atom "\"x\""), ("c", .atom "1.5")]])).matches
       (.arr [.obj [("a", .atom "1"), ("b", .atom "\"x\"")]]) = true := by decide
+
+/-- `bindingPath_sound_partial`: a well-shaped expression mixing all literal kinds and a reference -/
+example :
+    wt [("PAIR", [⟨"a", tInt⟩])] ⟨[⟨"x", ⟨"PAIR", 1, 0⟩⟩], .null, []⟩ ⟨"PAIR", 1, 1⟩
+      (.arr [.map [("k", .struct [("a", .lit (.atom "1"))])], .self "x" [], .lit .null]) = true := by decide
 
 /-- chunk-def arguments override bindings -/
 example : (chunkMerge [("x", .atom "1"), ("ci", .null)] [("ci", .atom "5")]).lookup "ci" = some (.atom "5")
